@@ -58,9 +58,9 @@ deriving Repr, DecidableEq
 inductive Reactor | login | play
 deriving Repr, DecidableEq
 
-/-- The exception that ends the networking thread. `typeError` is the uncaught
+/-- The exception that ends the networking thread. `typeError` was the uncaught
 `TypeError: expected string or bytes-like object` from `re.match` when the JSON `text` member is
-not a string. -/
+not a string; since the repair (`fix:` commit in /repo) it is no longer produced. -/
 inductive LoginErr
   | loginDisconnect (msg : String)
   | versionMismatch (ver : String)
@@ -149,16 +149,14 @@ def outdatedVersion (msg : String) : Option String :=
 
 /-- The `disconnect` branch of `LoginReactor.react`: which exception is raised. -/
 def classifyDisconnect (P : LoginParams) (json : String) : LoginErr :=
-  match P.jsonText json with
-  | .nonStr => .typeError
-  | .str t =>
-    match outdatedVersion t with
-    | some v => .versionMismatch v
-    | none => .loginDisconnect t
-  | .absent =>
-    match outdatedVersion json with
-    | some v => .versionMismatch v
-    | none => .loginDisconnect json
+  -- `msg = json.loads(data)['text']` when that is a string, else the raw `json_data`
+  -- (a non-string `text` member falls back to the raw data as well)
+  let msg := match P.jsonText json with
+    | .str t => t
+    | _ => json
+  match outdatedVersion msg with
+  | some v => .versionMismatch v
+  | none => .loginDisconnect msg
 
 /-! ### Writing -/
 
